@@ -98,6 +98,7 @@ type Store struct {
 	Reads   []cid.Cid // every link handed to the read opener, in order (including failing ones)
 	Commits []cid.Cid // every successful commit, in order
 	Opens   int       // number of write opens so far
+	lsCalls int       // number of LinkSystem() calls so far (selects the set-up variant)
 
 	// read faults
 	Missing    map[cid.Cid]bool
@@ -232,11 +233,51 @@ func (s *Store) openWrite(_ linking.LinkContext) (io.Writer, linking.BlockWriteC
 }
 
 // LinkSystem returns a fresh link system over the store with both UnixFS reifiers registered.
+//
+// There is more than one legitimate way to set a link system up, and they must all behave alike, so successive calls on one
+// store rotate through them (a pure function of the call sequence, hence of the case):
+//
+//	0: storage first, then AddUnixFSReificationToLinkSystem (the common way)
+//	1: another ADL is already registered in KnownReifiers when the UnixFS reifiers are added
+//	2: the reifiers are registered on a template link system without storage; the link system in use is a COPY of it whose
+//	   storage is set afterwards (KnownReifiers is shared with the template)
+//	3: AddUnixFSReificationToLinkSystem is called twice
 func (s *Store) LinkSystem() *ipld.LinkSystem {
+	s.mu.Lock()
+	variant := s.lsCalls % 4
+	s.lsCalls++
+	s.mu.Unlock()
+	return s.LinkSystemVariant(variant)
+}
+
+func (s *Store) LinkSystemVariant(variant int) *ipld.LinkSystem {
 	ls := cidlink.DefaultLinkSystem()
-	ls.StorageReadOpener = s.openRead
-	ls.StorageWriteOpener = s.openWrite
-	unixfsnode.AddUnixFSReificationToLinkSystem(&ls)
+	switch variant {
+	case 1:
+		ls.KnownReifiers = map[string]linking.NodeReifier{
+			"verif-other-adl": func(_ linking.LinkContext, n datamodel.Node, _ *linking.LinkSystem) (datamodel.Node, error) {
+				return n, nil
+			},
+		}
+		ls.StorageReadOpener = s.openRead
+		ls.StorageWriteOpener = s.openWrite
+		unixfsnode.AddUnixFSReificationToLinkSystem(&ls)
+	case 2:
+		template := cidlink.DefaultLinkSystem()
+		unixfsnode.AddUnixFSReificationToLinkSystem(&template)
+		ls = template
+		ls.StorageReadOpener = s.openRead
+		ls.StorageWriteOpener = s.openWrite
+	case 3:
+		ls.StorageReadOpener = s.openRead
+		ls.StorageWriteOpener = s.openWrite
+		unixfsnode.AddUnixFSReificationToLinkSystem(&ls)
+		unixfsnode.AddUnixFSReificationToLinkSystem(&ls)
+	default:
+		ls.StorageReadOpener = s.openRead
+		ls.StorageWriteOpener = s.openWrite
+		unixfsnode.AddUnixFSReificationToLinkSystem(&ls)
+	}
 	return &ls
 }
 
